@@ -450,3 +450,6 @@ def decide_inconclusive(obs, results, cases):
     if obs.get('pending_at_exit', 0) == 0:
         return 'no case left requests pending at exit'
     return None
+
+
+RULE = RULE + "; SystemExit in a worker's __init__; unroutable and unpicklable requests in the failure workload; composites inside composites; large abandoned streams under AsyncServer"
